@@ -376,6 +376,8 @@ type hubNode struct {
 	prov  *etherProvider
 	ready chan struct{}
 	gen   int // process instance number (restarts)
+	// crashed: the current instance was killed and no new one has been started
+	crashed bool
 }
 
 // group names the current process instance of the node (simrt task group).
@@ -519,6 +521,7 @@ func (n *hubNode) crash(rst bool) {
 	x := n.rig.x
 	g := n.group()
 	x.Ev("crash", n.name, fmt.Sprintf("rst=%v", rst), n.gen)
+	n.crashed = true
 	x.S.Freeze(g)
 	x.Net.CrashGroup(g, rst)
 	n.rig.eth.kill(n.prov)
@@ -529,6 +532,7 @@ func (n *hubNode) crash(rst bool) {
 // application's persistent state). Runs in a task of the new instance.
 func (n *hubNode) restart(peers ...*hubNode) {
 	n.gen++
+	n.crashed = false
 	done := make(chan struct{})
 	n.rig.x.Go(fmt.Sprintf("%s:restart%d", n.name, n.gen), func() {
 		defer close(done)
@@ -553,6 +557,16 @@ func (r *hubRig) skiName(ski string) string {
 		}
 	}
 	return ski
+}
+
+// spawn runs f as a task of node n's current process instance without waiting
+// for it.
+func (n *hubNode) spawn(what string, f func()) {
+	g := n.group()
+	n.rig.x.Go(n.name+":"+what, func() {
+		simrt.SetGroup(g)
+		f()
+	})
 }
 
 // on runs f as a task of node n (so that goroutines the hub spawns from it are
